@@ -68,7 +68,31 @@ fn space_for(tier: Tier, ucd: &Ucd) -> Space {
     }
     s.list("unknown names", nb + CATS.len() as u64, 64);
     s.list("polarity pairs", CATS.len() as u64 + 5 + 12, 8);
+    // every one- and two-letter name (thorough: three-letter too): accepted iff it is a category
+    s.list(
+        "short names",
+        match tier {
+            Tier::Quick => 52 + 52 * 52,
+            Tier::Thorough => 52 + 52 * 52 + 52 * 52 * 52,
+        },
+        512,
+    );
     s
+}
+
+const LETTERS: &[u8; 52] = b"ABCDEFGHIJKLMNOPQRSTUVWXYZabcdefghijklmnopqrstuvwxyz";
+
+fn short_name(i: u64) -> String {
+    let l = |k: u64| LETTERS[k as usize] as char;
+    if i < 52 {
+        format!("{}", l(i))
+    } else if i < 52 + 52 * 52 {
+        let j = i - 52;
+        format!("{}{}", l(j / 52), l(j % 52))
+    } else {
+        let j = i - 52 - 52 * 52;
+        format!("{}{}{}", l(j / (52 * 52)), l(j / 52 % 52), l(j % 52))
+    }
 }
 
 const GROUPS: [char; 7] = ['L', 'M', 'N', 'P', 'Z', 'S', 'C'];
@@ -130,6 +154,34 @@ impl Check for C10 {
             out.fail("C10", &Case::new("ESC", pat, "").input(&inp).api("replace_all"), kind, want, got, &format!("{} (first disagreement at U+{:04X})", note, c));
         };
         match lname {
+            "short names" => {
+                for i in lo..hi {
+                    let name = short_name(i);
+                    let valid = CATS.contains(&name.as_str());
+                    for (k, xsd) in [("p", false), ("P", false), ("p", true)] {
+                        for pat in [format!("\\{}{{{}}}", k, name), format!("[\\{}{{{}}}]", k, name), format!("\\{}{{Is{}}}", k, name)] {
+                            // Is<name> is a block lookup: no block has a one- to three-letter name
+                            let want_ok = valid && !pat.contains("{Is");
+                            out.inc("states");
+                            out.inc("validated");
+                            match imp::compile(&pat, "", xsd) {
+                                Out::Ok(_) if want_ok => out.inc("nontrivial"),
+                                Out::Err(EK::Syntax) if !want_ok => {}
+                                o if o.is_crash() => out.inc("inconclusive_crash"),
+                                o => out.fail(
+                                    "C10",
+                                    &Case::new("NAME", &pat, "").xsd(xsd).api("compile"),
+                                    if want_ok { "CategoryRejected" } else { "UnknownNameAccepted" },
+                                    if want_ok { "Ok" } else { "Err(Syntax)" },
+                                    &format!("{:?}", o.map(|_| ())),
+                                    "a name is accepted iff it is one of the 37 category names",
+                                ),
+                            }
+                        }
+                    }
+                }
+                out.sample(J::obj(vec![("short_names", J::s(format!("{} .. {}", short_name(lo), short_name(hi - 1))))]));
+            }
             "category groups" => {
                 for gi in lo..hi {
                     let g = GROUPS[gi as usize];
@@ -325,7 +377,7 @@ impl Check for C10 {
                             continue;
                         }
                     };
-                    let cases: Vec<(String, String, bool)> = vec![
+                    let mut cases: Vec<(String, String, bool)> = vec![
                         (format!("^{}{}$", p, n), format!("{}{}", m, x), true),
                         (format!("^{}{}$", p, n), format!("{}{}", x, m), false),
                         (format!("^{}{}$", n, p), format!("{}{}", x, m), true),
@@ -337,6 +389,19 @@ impl Check for C10 {
                         (format!("^[{}-[{}]]$", n, p), x.to_string(), true),
                         (format!("^{}+{}+{}+$", p, n, p), format!("{}{}{}", m, x, m), true),
                     ];
+                    // two complemented escapes in one group: the union of the two complements
+                    for q in ["\\P{Lu}", "\\P{Nd}", "\\D", "\\S", "\\W", "\\P{IsBasicLatin}"] {
+                        if q == n {
+                            continue;
+                        }
+                        for c in [m, x, 'A', '1', ' ', '_', 'a', '\u{e9}', '\u{10FFFF}'] {
+                            if let (Some(in_n), Some(in_q)) = (single(&n, c), single(q, c)) {
+                                cases.push((format!("^[{}{}]$", n, q), c.to_string(), in_n || in_q));
+                                cases.push((format!("^[{}{}]$", q, n), c.to_string(), in_n || in_q));
+                                cases.push((format!("^[^{}{}]$", n, q), c.to_string(), !(in_n || in_q)));
+                            }
+                        }
+                    }
                     // the escape as a member of a bracket group under flag i: class escapes
                     // are unaffected by the flag, only the literal member is case-blind
                     let mut icases: Vec<(String, String, bool)> = vec![];
